@@ -19,6 +19,16 @@ from pyvc import engine, solve, front, spec as SP      # noqa
 import z3                                               # noqa
 
 
+import re as _re
+
+
+def site_free(name):
+    """obligation name without site ordinals: `F/post[label]@return#3` -> `F/post[label]`, `F/pre[l]@call#11(G)` -> `F/pre[l](G)`.
+    Ledger and known findings are compared in this form, so that adding an unrelated statement, call or return to a
+    function neither hides nor re-reports anything."""
+    return _re.sub(r'@(?:return|raise|call|loop)#\d+|@end\b|@raise\b|@return\b', '', name)
+
+
 def load_known():
     path = os.path.join(HERE, 'known_findings.txt')
     opens, fixed = [], []
@@ -215,7 +225,7 @@ def run(pid, tier, seed, args, t0):
     # ---- refutation of what is not discharged: bounded counter-model search + native replay
     refuted = {}
     native_violation = any(not t['ok'] for t in table_results) or any(
-        v['name'] not in set(k.get('obligation') for k in opens) for b in bounded_results for v in b.get('violations', []))
+        site_free(v['name']) not in set(site_free(k.get('obligation') or '') for k in opens) for b in bounded_results for v in b.get('violations', []))
     if open_names and native_violation:
         undecided.append('counter-model search for %d open obligation(s) skipped: a table / bounded case already fails' % len(open_names))
     if open_names and not native_violation:
@@ -224,11 +234,12 @@ def run(pid, tier, seed, args, t0):
             if by_name[n][0][0].fr is not None:
                 by_fn.setdefault(by_name[n][0][0].fr.qual, set()).add(n)
         known_names = set(k.get('obligation') for k in opens)
+        known_free = set(site_free(n or '') for n in known_names)
         budget = 240 if tier == 'quick' else 1200      # wall seconds of counter-model search per function
         t_all = time.time()
         budget_all = 420 if tier == 'quick' else 2400  # ... and per check
         for q, names in sorted(by_fn.items()):
-            if any(n not in known_names for n in refuted):
+            if any(site_free(n) not in known_free for n in refuted):
                 break       # a violation that is not a known finding is already established: it decides the check
             t_fn = time.time()
             found_new = False
@@ -268,7 +279,7 @@ def run(pid, tier, seed, args, t0):
                     cands = [o for o in cands if o.name in todo][:400] or cands[:400]
                 screen = solve.discharge(cands, 'screen', procs=16, threads=True) if cands else []
                 order = sorted(range(len(cands)), key=lambda i: ({'sat': 0, 'unknown': 1, 'unsat': 2}[screen[i]['verdict']],
-                                                                 cands[i].name not in known_names, cands[i].name not in todo,
+                                                                 site_free(cands[i].name) not in known_free, cands[i].name not in todo,
                                                                  cands[i].kind not in ('post', 'raises')))
                 tried = {}
                 for i in order:
@@ -287,7 +298,7 @@ def run(pid, tier, seed, args, t0):
                         continue
                     if direct:
                         refuted[o.name] = rr
-                        if rr.get('replayed') and o.name not in known_names:
+                        if rr.get('replayed') and site_free(o.name) not in known_free:
                             found_new = True
                     elif rr.get('replayed'):
                         for n in loopish:
@@ -307,6 +318,7 @@ def run(pid, tier, seed, args, t0):
     # obligations may legitimately come and go with harmless edits
     all_names = sorted(n for n in name_verdict if '/post[' in n or '/raises[' in n or '/expost[' in n) + \
         sorted(t['name'] for t in table_results)
+    all_names = sorted(set(site_free(n) for n in all_names))
     if args.update_ledger:
         os.makedirs(os.path.dirname(ledger_path), exist_ok=True)
         with open(ledger_path, 'w') as f:
@@ -315,7 +327,7 @@ def run(pid, tier, seed, args, t0):
     if os.path.exists(ledger_path):
         with open(ledger_path) as f:
             led = json.load(f)
-        missing = sorted(set(led['obligations']) - set(all_names))
+        missing = sorted(set(site_free(n) for n in led['obligations']) - set(all_names))
         for m in missing:
             undecided.append('obligation %s of the ledger was not generated (function restructured or clause unreachable)' % m)
     # ---- verdicts
@@ -324,7 +336,7 @@ def run(pid, tier, seed, args, t0):
 
     def report(name, detail, suffix=''):
         for k in opens:
-            if k.get('obligation') == name:
+            if site_free(k.get('obligation') or '') == site_free(name):
                 ok, msg = RP.run_witness(k.get('witness'))
                 if ok:
                     known_lines.append('KNOWN-FINDING: property=%s %s' % (pid, k['what']))
